@@ -1404,7 +1404,9 @@ class HeteroscedasticReLUConditional(HeteroscedasticConditional):
     def _update_omega_star(self, p_x: pdf.GaussianPDF, y: Float[Array, "N Dy"], W_i: Float[Array, "Dx+1"], a_i: Float[Array, "Dy"], omega_star: Float[Array, "N"]) -> Float[Array, "N"]:      
         cubic_integral, quartic_integral = self._lower_bound_integrals(p_x=p_x, y=y, W_i=W_i, a_i=a_i, omega_star=omega_star, compute_fourth_order=True)
         cubic_integral= jnp.where(cubic_integral != 0., cubic_integral, 1.)
-        omega_star = (quartic_integral / cubic_integral)[0]
+        # the bound is valid for any omega > -1; when the rectified unit is (numerically) never
+        # active both integrals are rounding noise, so keep the iterate in the valid range
+        omega_star = jnp.maximum((quartic_integral / cubic_integral)[0], 0.)
     
         return omega_star
 
